@@ -1,4 +1,5 @@
 pub mod expert;
+pub mod leaks;
 pub mod lifecycle;
 pub mod maps;
 pub mod limits;
